@@ -66,6 +66,12 @@ def build_request(i: int, r: dict) -> bytes:
             if part:
                 out += f"{len(part):x}\r\n".encode() + part + b"\r\n"
         return out + b"0\r\n\r\n"
+    if bk == "chunked1":
+        # one byte per chunk: few bytes but many chunk boundaries (the reader also pauses on their number)
+        out = (head + "Transfer-Encoding: chunked\r\n\r\n").encode()
+        for k in range(n):
+            out += b"1\r\n" + data[k:k + 1] + b"\r\n"
+        return out + b"0\r\n\r\n"
     if r.get("close"):
         head += "Connection: close\r\n"
     if r.get("upgrade"):
@@ -447,8 +453,10 @@ def cases(draw, deep: bool = False, with_bad: bool = False):
     reqs = []
     for i in range(n):
         h = draw(st.sampled_from(HANDLERS if not deep else ["ret", "ret", "ret", "ret", "yield", "read_body", "ignore_body"]))
-        bk = draw(st.sampled_from(["none", "none", "cl", "chunked"] + (["cl_deflate"] if not with_bad else [])))
+        bk = draw(st.sampled_from(["none", "none", "cl", "chunked", "chunked1"] + (["cl_deflate"] if not with_bad else [])))
         r = {"h": h, "body": bk, "n": draw(st.sampled_from([0, 1, 5, 70] + ([300, 300] if deep else []))) if bk != "none" else 0}
+        if bk == "chunked1":
+            r["n"] = draw(st.sampled_from([4, 5, 6, 9, 12, 70]))
         if bk == "cl_deflate":
             r["n"] = draw(st.sampled_from([70, 5000, 300_000, 1_500_000] if not deep else [70, 5000]))
         # the same handler serves HEAD (what add_get() registers) and may answer with a status that has no body:
